@@ -137,7 +137,9 @@ def streams(ctx):
     q = ctx.quick()
     # corpus first: past disagreements (sessions replayed under forced-collection schedules)
     for path in corpus_sessions("C03"):
-        cases = gen_cases("gc", ["corpus", path] + ([64] if q else [5, 7, 16]), ctx.seed)
+        # a file named *-every1.scm is small and needs a collection before EVERY instruction to mean anything
+        ks = [1] if path.endswith("-every1.scm") else ([64] if q else [5, 7, 16])
+        cases = gen_cases("gc", ["corpus", path] + ks, ctx.seed)
         md, sd = correspond(ctx, "corpus-sessions", cases, obs_nontrivial)
         settle(ctx, md, sd)
     # Heap API sequences: model of alloc/free/put/maybe_put/mark/sweep/grow vs the real Heap
